@@ -361,6 +361,15 @@ func (Prop) Exec(c kernel.Case) *kernel.Violation {
 
 // directed programs biased to the rewrite preconditions and their near misses.
 var directed = []struct{ Src, In string }{
+	{`[((1, .) | 2)]`, `"x"`},
+	{`[(1, .) | 2], [(., 1) | 2], [1, (.) | 2], [(1, 2) | 3], [(1, empty) | 2]`, `"x"`},
+	{`{a: ((1, .) | 2)}, {a: 1, b: ((2, .) | 3)}`, `"x"`},
+	{`.["abc"[1:]]`, `{"abc":1,"bc":2}`},
+	{`.["abc"[1:]] = 5, (.["abc"[1:]] |= 7), del(.["abc"[1:]])`, `{"abc":1,"bc":2}`},
+	{`try (-1[0]) catch "err", [.[1[0]?]], [-(1[0]?)], [.[-1[0]?]]`, `[1,2,3]`},
+	{`.[1 | . + 1], .[(1)], .[1 as $x | $x], .["a" + "b"]?, .[1[0]?:], .[:"a"[0:1]]?`, `[1,2,3]`},
+	{`.["a"."b"?], .["a"[0]?], .[[1][0]], .[{"a":1}.a], .[-[1][0]], .[-{"a":1}.a]`, `[1,2,3]`},
+	{`-"a"[0:1]?, -[1][0], -{"a":2}.a, +[1][0], -1.5[0]?, -(1)[0]?`, `null`},
 	{`1 + (label $l | .)`, `1`},
 	{`[.[] | (label $l | .)]`, `[1,2]`},
 	{`def f(x): x; f(label $l | .)`, `1`},
